@@ -1,6 +1,7 @@
 import GixModel.Lemmas.C27
 import GixModel.Lemmas.C27Body
 import GixModel.Lemmas.C27Value
+import GixModel.Lemmas.C27Total
 /-
 C27 — Config values are interpreted like git.  PROPERTY THEOREMS ONLY.
 
@@ -78,6 +79,27 @@ example : (⟨[45], [57, 48, 48, 55, 49, 57, 57, 50, 53, 52, 55, 52, 48, 57, 57,
     gitInt [45, 57, 48, 48, 55, 49, 57, 57, 50, 53, 52, 55, 52, 48, 57, 57, 50, 107] = none ∧
     gitInt [50, 103] = some 2147483648 := by
   refine ⟨⟨by simp, by simp, by decide, by simp, Or.inr ⟨107, rfl, by decide⟩⟩, by decide +kernel, by decide +kernel, by decide +kernel⟩
+
+/-- TOTAL, over ALL byte strings: outside the explicit class `plainDecimal s = false` (the value
+starts with C whitespace, or is `0`-prefixed: octal / hex for git's `strtoimax` base 0),
+`git config --type=int` and gitoxide's `integer()` both reject the value or both accept it with the
+same result — except that git rejects a result of exactly i64::MIN (`dropMin`). Garbage, signs
+without digits, several suffix letters, overflow in the digits or in the product: all covered. -/
+theorem int_eq_git_total (s : Bytes) (hp : plainDecimal s = true) : gitInt s = dropMin (gixInt s) :=
+  int_total _ extracted_tables_ok.2 s hp
+
+example : plainDecimal [45, 49, 50, 107, 107] = true ∧ gitInt [45, 49, 50, 107, 107] = none ∧
+    plainDecimal [49, 50, 51, 52, 53, 54, 55, 56, 57, 48, 49, 50, 51, 52, 53, 54, 55, 103] = true ∧
+    gitInt [49, 50, 51, 52, 53, 54, 55, 56, 57, 48, 49, 50, 51, 52, 53, 54, 55, 103] = none := by decide +kernel
+
+/-- TOTAL, over ALL byte strings: outside the explicit class `boolDeviates` (not a boolean word and:
+leading C whitespace or `0`-prefix, or a number with a unit suffix, or a number beyond git's 32-bit
+`int`), `git config --type=bool` and gitoxide's `boolean()` both reject the value or agree. -/
+theorem bool_eq_git_total (s : Bytes) (hd : boolDeviates s = false) : gixBool s = gitBool s :=
+  bool_total _ _ _ _ extracted_tables_ok.1 s hd
+
+example : boolDeviates [116, 114, 117, 101, 101] = false ∧ gitBool [116, 114, 117, 101, 101] = none ∧
+    boolDeviates [50, 107] = true ∧ boolDeviates [45, 55] = false := by decide +kernel
 
 /-- Section names match without regard to ASCII case; the sub-section must be equal. -/
 theorem section_match_case (h : Header) (sec sec' : Bytes) (sub sub' : Option Bytes)
@@ -162,6 +184,21 @@ theorem value_eq_git (text : Bytes) (hp : plainText text = true) :
 example : plainText [32, 34, 97, 32, 98, 34, 32, 32, 99, 92, 34, 100, 32, 92, 10, 32, 32, 101, 32, 59, 32, 120] = true ∧
     gitParseValue [32, 34, 97, 32, 98, 34, 32, 32, 99, 92, 34, 100, 32, 92, 10, 32, 32, 101, 32, 59, 32, 120] =
       some [97, 32, 98, 32, 32, 99, 34, 100, 32, 32, 32, 101] := by decide +kernel
+
+/-- `value_eq_git` for CRLF files: every CR of the text belongs to a CR LF (line ends and
+continuation lines), and the text is plain once CR LF is read as LF. gitoxide trims the CR with the
+trailing whitespace and reads `\<CR><LF>` as a continuation; git folds CR LF while reading. -/
+theorem value_eq_git_crlf (text : Bytes) (h : plainTextCrlf text = true) :
+    gixValueOfText text = gitParseValue text := by
+  unfold plainTextCrlf at h
+  simp only [Bool.and_eq_true] at h
+  exact value_eq_git_crlf_proof text h.1 h.2
+
+-- non-vacuity: ` "a b" \<CR><LF>  c <CR><LF>` — both read `a b   c`
+example : plainTextCrlf [32, 34, 97, 32, 98, 34, 32, 92, 13, 10, 32, 32, 99, 32, 13, 10] = true ∧
+    plainText [32, 34, 97, 32, 98, 34, 32, 92, 13, 10, 32, 32, 99, 32, 13, 10] = false ∧
+    gitParseValue [32, 34, 97, 32, 98, 34, 32, 92, 13, 10, 32, 32, 99, 32, 13, 10] = some [97, 32, 98, 32, 32, 32, 99] := by
+  decide +kernel
 
 /-- the domain is needed: on `a<TAB>b` the two differ (git 2.39: `a b`) -/
 theorem value_differs_outside_domain :
